@@ -157,9 +157,9 @@ impl Prop for C06T {
                 let kind = rng.range(1, 5) as u8;
                 if let Some(f) = gen::make_faulty(&mut rng, &m, &ctx, &msg.units[j], kind) {
                     if matches!(kind, fault::SYNTAX | fault::UNDEFINED) {
-                        // the header of the faulty unit is broken: what follows must not depend on it
-                        let keep = msg.units[j + 1..].iter().take_while(|u| u.colon || u.is_common()).count();
-                        msg.units.truncate(j + 1 + keep);
+                        // the header of the faulty unit is broken, so the path context behind it
+                        // is not defined by the statement: such a unit is the last of its message
+                        msg.units.truncate(j + 1);
                     }
                     msg.units[j] = f;
                     done = true;
